@@ -1,6 +1,7 @@
 import NitroVerif.Proto
 import NitroVerif.Model.Opt
 import NitroVerif.Spec.Opt
+import NitroVerif.Model.OptDecl
 
 /-! Driver glue for the option parser (C01–C04, C11–C14): line parsing, canonical output. -/
 namespace NitroVerif.Drv.Opt
@@ -102,6 +103,59 @@ def histGo (d : Decl) (s : Dyn) : List String → List String
     | _, _ => ["bad-op"]
   | _ => []
 
+def kindOfStr (k : String) : Option Kind :=
+  if k = "o" then some .o else if k = "m" then some .m else if k = "t" then some .t else none
+
+def dresStr : DRes → String
+  | .obj id => "ok" ++ toString id
+  | .ok => "ok"
+  | .dev => "dev"
+  | .skip => "skip"
+
+def probeStr (s : DState) (argv : List Str) : String :=
+  let d := toDecl s (some 0)
+  let d := { d with opts := sortBy (·.name) d.opts, muls := sortBy (·.name) d.muls, togs := sortBy (·.name) d.togs }
+  match parse d (fun _ => none) argv with
+  | .error .user => "user"
+  | .error .dev => "dev"
+  | .ok r =>
+    "parsed" ++ String.join ((List.range s.length).map fun i =>
+      match s[i]? with
+      | none => ""
+      | some x =>
+        " " ++ toString i ++ "=" ++ (match x.kind with
+          | .t => (match r.togs.find? (·.1 = x.name) with | some (_, c) => toString c | none => "?")
+          | .m => "#" ++ (match r.muls.find? (·.1 = x.name) with | some (_, vs) => toString vs.length | none => "?")
+          | .o => if r.provided.contains x.name then
+                    (match r.opts.find? (·.1 = x.name) with | some (_, some v) => hex v | _ => "?")
+                  else "~"))
+
+def declRun (s : DState) : List String → List String
+  | [] => []
+  | tok :: rest =>
+    match tok.splitOn ":" with
+    | [k, g, name] =>
+      (match kindOfStr k, g.toNat?, unhex name with
+        | some k, some g, some name =>
+          let (s', r) := dstep s (.declare k g name)
+          dresStr r :: declRun s' rest
+        | _, _, _ =>
+          if k = "sh" || k = "en" || k = "mv" then
+            (match g.toNat?, unhex name with
+              | some id, some v =>
+                let op := if k = "sh" then DOp.setShort id v else if k = "en" then .setEnv id v else .setMetavar id v
+                let (s', r) := dstep s op
+                dresStr r :: declRun s' rest
+              | _, _ => ["bad-op"])
+          else ["bad-op"])
+    | ["grp", _] => "ok" :: declRun s rest
+    | ["move"] => "ok" :: declRun s rest
+    | ["probe", argv] =>
+      (match unhexList argv with
+        | some argv => probeStr s argv :: declRun s rest
+        | none => ["bad-op"])
+    | _ => ["bad-op"]
+
 def model (f0 : List String) : String :=
   let f := match f0 with
     | t :: rest => if t.startsWith "C" then rest else f0
@@ -132,6 +186,7 @@ def model (f0 : List String) : String :=
     match unhex w with
     | some w => (match parseEnvWord w with | some true => "1" | some false => "0" | none => "user")
     | none => "bad-op"
+  | ["D", ops] => ";".intercalate (declRun [] (ops.splitOn ";"))
   | _ => "bad-op"
 
 end NitroVerif.Drv.Opt
@@ -238,6 +293,12 @@ def judge (f : List String) (ans : String) : String :=
   | [_tag, "T", tok] =>
     let m := model ["T", tok]
     let feat := "\ttoken-" ++ (if m == "user" then "rejected" else "accepted") ++ " nt"
+    if ans == m then "ok" ++ feat else "bad:" ++ ans ++ " want " ++ m ++ feat
+  | [_tag, "D", ops] =>
+    let m := model ["D", ops]
+    let n := (ops.splitOn ";").length
+    let feat := "\tdecl" ++ toString (min n 8) ++ (if (ops.splitOn "move").length > 1 then " moved" else "") ++
+      (if (m.splitOn "dev").length > 1 then " has-dev" else "") ++ (if n ≥ 2 then " nt" else "")
     if ans == m then "ok" ++ feat else "bad:" ++ ans ++ " want " ++ m ++ feat
   | [_tag, "E", w] =>
     match unhex w with
